@@ -1020,6 +1020,7 @@ class Domain:
         if t is None:
             return None
         lists = {bp} | {f[2] for f in st if f[0] == "eqlen" and f[1] == bp}
+        lists |= {f[2] for f in st if f[0] == "alias" and f[1] in lists} | {f[1] for f in st if f[0] == "alias" and f[2] in lists}
         if t[0] is None:
             c = t[1]
             need = c + 1 if c >= 0 else -c
@@ -1176,6 +1177,17 @@ class Domain:
                     out.add(("haskey", STORE, p))
             if isinstance(a, (ast.Tuple, ast.List)):
                 out.add(("lenge", p, len(a.elts)))
+            if isinstance(a, ast.BinOp):
+                # index arithmetic in the actual: bounds of i carry over to i + d, shifted
+                ta = self.term(a, st)
+                if ta is not None and ta[0] is not None and ta[0][0] == "v":
+                    iv, dd = ta[0][1], ta[1]
+                    lin_pending = getattr(self, "_lin_pending", None)
+                    for f in st:
+                        if f[0] == "ub" and f[1] == iv and f[3] - dd >= 1:
+                            out.add(("ub", p, "\0" + f[2], f[3] - dd))
+                        if f[0] == "lb" and f[1] == iv:
+                            out.add(("lb", p, f[2] + dd))
             if isinstance(a, ast.Call) and id(a) in self.call_info:
                 # facts about the value an inner call returns travel with it into the parameter
                 common = None
@@ -1242,6 +1254,15 @@ class Domain:
             qs = [fwd(x) if isinstance(x, str) else x for x in f[1:]]
             if all(q is not None for q in qs):
                 out.add((k,) + tuple(qs))
+        fixed = set()
+        for f in out:
+            if f[0] == "ub" and isinstance(f[2], str) and f[2].startswith("\0"):
+                q = fwd(f[2][1:])
+                if q is not None:
+                    fixed.add(("ub", f[1], q, f[3]))
+            else:
+                fixed.add(f)
+        out = fixed
         # keep only facts that mention a parameter
         params = set(fi.params)
         out = {f for f in out if any(q.split(".")[0] in params for q in F.paths_of(f))}
